@@ -68,6 +68,14 @@ def run(ctx):
             if tgt is not None:
                 reach = cfg.reach_from(tgt)
                 per_elem = not (reach & set(acc)) and not (reach & set(oks))
+        # the same question on the element-specialised evaluation: assuming a list element is MessageAugmentation,
+        # no accumulation is reached (whatever the shape of the refusal: own arm, `matches!`, merged guard)
+        if not per_elem:
+            eroots = [r for r, a in SP.switch_roots(P, f, ["Signature"], computed=True) if r[0] == "@" and any(x.op == "call" and B.cname(x) == "Iterator::next" for x in subterms(r[1]))]
+            for er in eroots:
+                sev = evaluate(f, {er: "MessageAugmentation"})
+                if not any(s_.callee[0] == "AddAssign::add_assign" for s_ in sev.sites.values()):
+                    per_elem = True
         first_ok = True
         for b in oks:
             for adt, var, src, dsc in __import__("analysis.rules.common", fromlist=["scheme_context"]).scheme_context(P, f, b):
